@@ -152,6 +152,43 @@ def many(*, a: int, b: int, c: int, d: int, e: int) -> None: ...
 many()
 many(f=1, g=2, h=3)
 reveal_type(cyc_a.fa)
+
+from typing_extensions import Unpack
+from abc import ABC, abstractmethod
+class KW(TypedDict):
+    name: str
+    country: str
+    city: str
+    age: int
+    phone: str
+    email: str
+def fkw(name: str, country: str, city: str, age: int, phone: str, email: str, **kwargs: Unpack[KW]) -> None: ...
+
+class Abs(ABC):
+    @abstractmethod
+    def a1(self) -> None: ...
+    @abstractmethod
+    def a2(self) -> None: ...
+    @abstractmethod
+    def a3(self) -> None: ...
+    @abstractmethod
+    def a4(self) -> None: ...
+    @abstractmethod
+    def a5(self) -> None: ...
+Abs()
+__all__ = ["zz_undefined_1", "zz_undefined_2", "zz_undefined_3", "zz_undefined_4", "Abs"]
+zq = 1  # type: ignore[arg-type, call-arg, attr-defined, operator, index]
+td2: TD = {{"k1": 1}}
+class B1:
+    def m(self) -> int: ...
+    n: int
+class B2:
+    def m(self) -> str: ...
+    n: str
+class B3:
+    def m(self) -> bytes: ...
+    n: bytes
+class Multi(B1, B2, B3): ...
 """
     return {"main.py": main,
             "cyc_a.py": "import cyc_b\ndef fa() -> 'cyc_b.CB': return cyc_b.CB()\nclass CA: x: int = ''\n",
@@ -182,7 +219,8 @@ def hash_seed_search(ctx: Ctx) -> None:
         user = B.USER_PREFIXES + ("main", "cyc_a", "cyc_b", "cyc_c")
         for hs in seeds:
             cdir = os.path.join(base, f"c{hs}")
-            r = B.run_mypy(root, cdir, B.CONFIGS["files-binary"] + multi, env_extra={"PYTHONHASHSEED": hs}, scratch=base)
+            r = B.run_mypy(root, cdir, B.CONFIGS["files-binary"] + multi + (["--warn-unused-ignores"] if i == 0 else []),
+                           env_extra={"PYTHONHASHSEED": hs}, scratch=base)
             # the same build with the JSON format: meta and meta_ex records are compared field by field
             # (data_mtime is the time the data record was written, not a function of the inputs)
             jdir = os.path.join(base, f"j{hs}")
@@ -224,6 +262,61 @@ def hash_seed_search(ctx: Ctx) -> None:
                            {"files": files, "hashseeds": seeds,
                             "values": [o[k] if k not in ("data", "meta") else sorted(r for r in o[k] if any(json.dumps(o[k][r], sort_keys=True) != json.dumps(p[k].get(r), sort_keys=True) for p in outs)) for o in outs]})
                 break
+
+
+CORPUS_MARKS = ("Unpack[", "TypedDict", "Protocol", "@overload", "__all__", "abstractmethod", "Literal[", "NamedTuple", "Enum",
+                "dataclass", "__slots__", "Final", "TypeVar(", "ParamSpec", "match ", "**kw", "*args")
+
+
+def corpus_hash_seed(ctx: Ctx) -> None:
+    """The repository's own check-*.test programs (those using constructs whose diagnostics enumerate several names)
+    under three hash seeds: text and order of the output must be identical.  One child interpreter per seed runs all
+    sampled cases (`mypy.api.run`), so the per-case cost is a fraction of a second."""
+    from harness.c20 import corpus as C
+    from harness.vlib.core import REPO
+    cases = [c for c in C.load(REPO) if any(m in c.main for m in CORPUS_MARKS) and "import" not in "".join(c.files)]
+    rng = random.Random(f"c10corpus:{ctx.seed}")
+    rng.shuffle(cases)
+    cases = cases[: ctx.pick(60, 900)]
+    base = os.path.join(ctx.tmp, "corp")
+    jobs = []
+    for i, c in enumerate(cases):
+        root = os.path.join(base, f"p{i}")
+        os.makedirs(root)
+        open(os.path.join(root, "main.py"), "w").write(c.main)
+        for rel, text in c.files.items():
+            fp = os.path.join(root, rel)
+            os.makedirs(os.path.dirname(fp), exist_ok=True)
+            open(fp, "w").write(text)
+        flags = [f for f in c.flags if f not in ("--no-incremental", "--sqlite-cache", "--no-sqlite-cache", "--fixed-format-cache")]
+        jobs.append({"cwd": root, "args": ["--no-error-summary", "--no-color-output", "--hide-error-context",
+                                           "--show-traceback"] + flags + ["main.py"]})
+    seeds = ["0", "1", "4242"]
+
+    def run_seed(hs):
+        # one cache directory per child (typeshed is analysed once per child, not once per case)
+        spec = os.path.join(base, f"jobs{hs}.json")
+        json.dump([dict(j, args=["--cache-dir", os.path.join(base, f"cache{hs}")] + j["args"]) for j in jobs], open(spec, "w"))
+        outp = os.path.join(base, f"out{hs}.json")
+        p = subprocess.run([PY, os.path.join(HERE, "seqrun.py"), spec, outp], capture_output=True, text=True,
+                           env=repo_env({"PYTHONHASHSEED": hs}), timeout=3000)
+        if p.returncode != 0 or not os.path.exists(outp):
+            raise ToolFailure("corpus seqrun child failed: " + p.stderr[-1500:])
+        return json.load(open(outp))
+    with ThreadPoolExecutor(max_workers=3) as ex:
+        outs = list(ex.map(run_seed, seeds))
+    reported = 0
+    for i, c in enumerate(cases):
+        res = [(o[i]["stdout"], o[i]["status"]) for o in outs]
+        ctx.case(("corpus-hashseed", c.name), nontrivial=bool(res[0][0].strip()))
+        ctx.dist("corpus_hashseed_output", "messages" if res[0][0].strip() else "silent")
+        if len(set(res)) > 1 and reported < 3:
+            reported += 1
+            ctx.report({"class": "hash-seed-dependent", "what": "stdout", "corpus": c.name},
+                       f"corpus case {c.name} prints different diagnostics under different PYTHONHASHSEED",
+                       {"case": c.name, "main": c.main, "files": c.files, "flags": c.flags, "hashseeds": seeds,
+                        "outputs": [r[0] for r in res], "statuses": [r[1] for r in res]})
+    shutil.rmtree(base, ignore_errors=True)
 
 
 def inline_flag_mix(rng) -> dict:
@@ -392,6 +485,7 @@ def main(ctx: Ctx) -> None:
                 "hash-seed independence of the checker's internals (set iteration inside checker.py etc.) is searched, not proved")
     graph_correspondence(ctx)
     hash_seed_search(ctx)
+    corpus_hash_seed(ctx)
     permutation_corpus(ctx)
     permutation_search(ctx)
     history_search(ctx)
